@@ -271,8 +271,10 @@ def relativise(o, root, placeholder="/R"):
 # generators
 # ----------------------------------------------------------------------------
 STEP_NAMES = ["a", "b", "c", "ab", "a_b", "a-b", "gen", "sim", "post-1", "s2", "run.x", "Z9"]
-KEYS_FREE = ["SIZE", "ITER", "N", "T_1", "alpha", "B2"]
-KEYS_PREFIX = ["SIZE", "SIZEX", "SIZEXY", "N", "NX", "N_", "A", "AB"]
+# keys are word characters plus regex-harmless punctuation (legal in maestrowf, e.g. MAT-ID; the key is
+# spliced unescaped into the used-parameter regex): H8's word_key admits  - : @ % ~ , ! =
+KEYS_FREE = ["SIZE", "ITER", "N", "T_1", "alpha", "B2", "MAT-ID", "T:1", "x@y", "p~q", "a,b", "W!", "k=v", "pc%"]
+KEYS_PREFIX = ["SIZE", "SIZEX", "SIZEXY", "N", "NX", "N_", "A", "AB", "MAT-ID", "MAT", "ID", "MAT-ID2", "MAT-", "A:B", "A:"]
 STR_VALS = ["x", "y", "lo", "hi", "v1", "v-2", "a.b", "Q"]
 
 
@@ -352,6 +354,9 @@ def gen_case(rng, stream):
     pool = KEYS_PREFIX if stream == "prefix" or (exotic and rng.random() < 0.3) else KEYS_FREE
     nparams = rng.choice([0, 1, 1, 2, 2, 3, 4]) if stream != "prefix" else rng.choice([2, 3, 4])
     keys = rng.sample(pool, min(nparams, len(pool)))
+    if stream == "prefix" and rng.random() < 0.4:      # a family of keys that are prefixes / parts of one another
+        fam = rng.choice([["MAT-ID", "MAT", "ID", "MAT-ID2"], ["SIZE", "SIZEX", "SIZEXY"], ["A", "AB", "A:B", "A:"]])
+        keys = rng.sample(fam, min(max(nparams, 2), len(fam)))
     nrows = rng.randint(1, 5)
     if exotic and rng.random() < 0.05:
         nrows = 0
@@ -422,8 +427,9 @@ def gen_case(rng, stream):
 
 def gen_scan_probe(rng):
     """texts for the scanner-vs-re comparison"""
-    key = rng.choice(KEYS_PREFIX + ["x", "_", "9"])
-    alphabet = ["$", "(", ")", ".", key, key + "X", "label", "name", "w", "_", "-", " ", "1", "$(", ")", "."]
+    key = rng.choice(KEYS_PREFIX + KEYS_FREE + ["x", "_", "9", "-", "a-", "-a"])
+    alphabet = ["$", "(", ")", ".", key, key + "X", key[:-1] or "k", "label", "name", "w", "_", "-", ":", " ", "1",
+                "$(", ")", ".", "$(" + key, "$(" + key + ")", "$(" + key + ".label)"]
     text = "".join(rng.choice(alphabet) for _ in range(rng.randint(0, 9)))
     return [key, text]
 
@@ -436,16 +442,23 @@ def gen_ws_probe(rng):
 
 def tiny_cases():
     """Exhaustive small scope: 2 steps x {no dep, ordinary, funnel} x which of
-    2 parameters (prefix-named) each step mentions x 2 rows with equal/different values."""
+    2 parameters (prefix-named) each step mentions x 2 rows with equal/different values;
+    once with the keys N/NX (all value patterns, with and without a workspace reference) and
+    once with the punctuated keys MAT/MAT-ID (one value pattern)."""
+    return _tiny("N", "NX", (([1, 1], [1, 2]), ([1, 2], [3, 3]), ([1, 2], [1, 2])), (False, True)) + \
+        _tiny("MAT", "MAT-ID", (([1, 1], [1, 2]),), (False,))
+
+
+def _tiny(k1, k2, valpats, wsrefs):
     out = []
     for dep in (None, "a", "a_*"):
         for ua in range(4):
             for ub in range(4):
-                for vals in (([1, 1], [1, 2]), ([1, 2], [3, 3]), ([1, 2], [1, 2])):
-                    for wsref in (False, True):
+                for vals in valpats:
+                    for wsref in wsrefs:
                         if wsref and dep is None:
                             continue
-                        toks = ["$(N)", "$(NX)"]
+                        toks = ["$(%s)" % k1, "$(%s)" % k2]
                         ca = "echo " + " ".join(t for b, t in zip((ua & 1, ua & 2), toks) if b)
                         cb = "echo " + " ".join(t for b, t in zip((ub & 1, ub & 2), toks) if b)
                         if wsref:
@@ -454,9 +467,9 @@ def tiny_cases():
                         if dep:
                             rb["depends"] = [dep]
                         out.append({"rlimit": 2, "stream": "tiny",
-                                    "params": [{"key": "N", "name": None, "values": vals[0], "label": "N.%%"},
-                                               {"key": "NX", "name": None, "values": vals[1], "label": "NX.%%"}],
-                                    "steps": [{"name": "a", "description": "first", "run": {"cmd": ca, "restart": "again $(N)" if ua == 3 else ""}},
+                                    "params": [{"key": k1, "name": None, "values": vals[0], "label": k1 + ".%%"},
+                                               {"key": k2, "name": None, "values": vals[1], "label": k2 + ".%%"}],
+                                    "steps": [{"name": "a", "description": "first", "run": {"cmd": ca, "restart": ("again $(%s)" % k1) if ua == 3 else ""}},
                                               {"name": "b", "description": "second", "run": rb}]})
     return out
 
